@@ -132,34 +132,57 @@ func replayNative(repo, root string, r HarnessRun, v *sym.Violation, cexPath str
 	if strings.HasPrefix(v.ID, "terminates") {
 		tries = "1"
 	}
-	args := []string{"test", "-mod=mod", "-vet=off", "-count=1", "-v", "-run", "^TestVFReplay$", "-overlay", ovPath, "-timeout", "280s"}
+	args := []string{"test", "-mod=mod", "-vet=off", "-count=1", "-v", "-run", "^TestVFReplay$", "-timeout", "280s"}
 	if v.ID == "no-race" {
 		// a data race is confirmed by the Go race detector on the native build
 		args = append(args, "-race")
 		tries = "300"
 		kind = "schedule (stress, go test -race)"
 	}
-	args = append(args, "./"+dir)
-	cmd := exec.Command("go", args...)
-	cmd.Dir = repo
-	var env []string
-	for _, e := range os.Environ() {
-		if strings.HasPrefix(e, "GOTOOLCHAIN=") || strings.HasPrefix(e, "GOSUMDB=") || strings.HasPrefix(e, "GOFLAGS=") {
-			continue
+	// Schedule counterexamples: the package's own sources are replayed with a randomised yield after
+	// every lock / unlock statement (a copy in the overlay; /repo is not touched), so that windows
+	// between two critical sections are hit by the stress replay. If the instrumented copy does not
+	// build, the plain sources are used.
+	ovInst := ""
+	if strings.HasPrefix(kind, "schedule") {
+		if n := instrumentLocks(filepath.Join(repo, dir), work, overlay); n > 0 {
+			ovi, _ := json.Marshal(map[string]any{"Replace": overlay})
+			ovInst = filepath.Join(work, "overlay_inst.json")
+			os.WriteFile(ovInst, ovi, 0o644)
+			kind += ", yields at " + fmt.Sprint(n) + " lock statements"
 		}
-		env = append(env, e)
 	}
-	env = append(env, "GOPROXY=off", "GOWORK=off", "VF_CEX="+cexPath, "VF_TRIES="+tries)
-	cmd.Env = env
-	done := make(chan struct{})
 	var out []byte
-	var err error
-	go func() { out, err = cmd.CombinedOutput(); close(done) }()
-	select {
-	case <-done:
-	case <-time.After(300 * time.Second):
-		cmd.Process.Kill()
-		<-done
+	runOnce := func(ovp string) {
+		a := append(append([]string{}, args...), "-overlay", ovp, "./"+dir)
+		cmd := exec.Command("go", a...)
+		cmd.Dir = repo
+		var env []string
+		for _, e := range os.Environ() {
+			if strings.HasPrefix(e, "GOTOOLCHAIN=") || strings.HasPrefix(e, "GOSUMDB=") || strings.HasPrefix(e, "GOFLAGS=") {
+				continue
+			}
+			env = append(env, e)
+		}
+		env = append(env, "GOPROXY=off", "GOWORK=off", "VF_CEX="+cexPath, "VF_TRIES="+tries)
+		cmd.Env = env
+		done := make(chan struct{})
+		go func() { out, _ = cmd.CombinedOutput(); close(done) }()
+		select {
+		case <-done:
+		case <-time.After(300 * time.Second):
+			cmd.Process.Kill()
+			<-done
+		}
+	}
+	if ovInst != "" {
+		runOnce(ovInst)
+		if strings.Contains(string(out), "[build failed]") || strings.Contains(string(out), "[setup failed]") {
+			kind = strings.Split(kind, ", yields")[0]
+			runOnce(ovPath)
+		}
+	} else {
+		runOnce(ovPath)
 	}
 	txt := string(out)
 	os.WriteFile(strings.TrimSuffix(cexPath, ".json")+".replay.log", out, 0o644)
@@ -178,7 +201,6 @@ func replayNative(repo, root string, r HarnessRun, v *sym.Violation, cexPath str
 	case want == "asm-read-in-bounds":
 		return true, "out-of-object read by the assembly (no sanitizer can confirm; triaged by reading)"
 	}
-	_ = err
 	why := "assertion did not fail natively"
 	if strings.Contains(txt, "VF-OFFMODEL") {
 		why = "recorded values violate a harness assumption natively"
@@ -212,6 +234,46 @@ func repoRaceReported(txt string) bool {
 		}
 	}
 	return false
+}
+
+var lockStmt = regexp.MustCompile(`^(\s*)([A-Za-z_][A-Za-z0-9_\.\[\]]*\.(?:RLock|RUnlock|Lock|Unlock)\(\))\s*(//.*)?$`)
+
+// instrumentLocks writes copies of the package's non-test sources with `; vfJitter()` appended to
+// every statement that is a bare lock / unlock call, and maps them over the originals in overlay.
+// Returns the number of instrumented statements.
+func instrumentLocks(pkgDir, work string, overlay map[string]string) int {
+	files, _ := filepath.Glob(filepath.Join(pkgDir, "*.go"))
+	total := 0
+	for _, f := range files {
+		base := filepath.Base(f)
+		if strings.HasSuffix(base, "_test.go") || strings.HasPrefix(base, "zz_vf_") {
+			continue
+		}
+		if _, replaced := overlay[f]; replaced {
+			continue
+		}
+		b, err := os.ReadFile(f)
+		if err != nil {
+			continue
+		}
+		lines := strings.Split(string(b), "\n")
+		n := 0
+		for i, l := range lines {
+			if m := lockStmt.FindStringSubmatch(l); m != nil {
+				lines[i] = m[1] + m[2] + "; vfJitter()"
+				n++
+			}
+		}
+		if n == 0 {
+			continue
+		}
+		out := filepath.Join(work, "inst_"+base)
+		if os.WriteFile(out, []byte(strings.Join(lines, "\n")), 0o644) == nil {
+			overlay[f] = out
+			total += n
+		}
+	}
+	return total
 }
 
 func threadsIn(s []int) int {
